@@ -111,7 +111,18 @@ const WORDS: [&str; 40] = [
 ];
 
 fn specials() -> Vec<String> {
-    let mut v: Vec<String> = vec![
+    let mut v: Vec<String> = Vec::new();
+    // long lines made of multi-byte characters with a diagnostic on the same line: wherever a cited line is cut
+    // or measured, the position falls inside a character for one of the alignments
+    for lead in ["", " ", "  "] {
+        for (chr, n) in [("\u{e9}", 260usize), ("\u{20ac}", 180), ("\u{1F600}", 130)] {
+            v.push(format!("start: hlt\n{}db \"{}\" @\n", lead, chr.repeat(n)));
+            v.push(format!("{}x: db \"{}\"\nstart: mov ax, 70000\n", lead, chr.repeat(n)));
+            v.push(format!("start: nop\n{}mov al, 5 ; {}\n{}mov ax, bl ; {}\n", lead, chr.repeat(n), lead, chr.repeat(n)));
+            v.push(format!("start: jmp nowhere{} ; {}", lead, chr.repeat(n)));
+        }
+    }
+    v.extend(vec![
         "".into(),
         " ".into(),
         "\n".into(),
@@ -194,7 +205,7 @@ fn specials() -> Vec<String> {
         "start: jcxz z\nhlt\nz:\n".into(),
         "start: print reg\njmp z\nhlt\nz:".into(),
         "x: db 1\nstart: jmp z\nhlt\nhlt\nz:\n\n\n".into(),
-    ];
+    ]);
     for n in [1usize, 5, 19, 20, 21, 40, 1000] {
         v.push(format!("start: mov ax, {}", "9".repeat(n)));
         v.push(format!("db {}\nstart: hlt\n", "1".repeat(n)));
